@@ -232,7 +232,10 @@ class KillScenario:
         if rc != 0:
             raise L.ArrayError('kill scenario: first sync failed: %r' % out[-300:])
         L._wfile(os.path.join(data, 'd2', 'added_file'), bytes(self.rng.getrandbits(8) for _ in range(1300)), 1600000900 * 10**9)
-        os.unlink(os.path.join(data, 'd1', 'sub/b'))
+        if os.path.exists(os.path.join(data, 'd1', 'sub/b')):
+            os.unlink(os.path.join(data, 'd1', 'sub/b'))
+        else:
+            os.unlink(os.path.join(data, 'd1', 'f1'))
         self.data_snap = L.snapshot_tree(data)
         self.versions = [self.read_copies(base)[0]]
         # un-killed twin
@@ -264,6 +267,12 @@ class KillScenario:
         self.stats['calls'] = self.ncalls
         self.stats['sizes'] = [len(v) for v in self.versions if v is not None]
         self.stats['writes_per_copy_last_round'] = sum(1 for e in self.twin_ev if e['op'] == 'write' and e['path'] == self.contents[0] + '.tmp' and self.rounds and e['n'] >= self.rounds[-1][0])
+
+    def problems_of_twin_basic(self):
+        probs = []
+        if any(c != self.final[0] for c in self.final) or not L.seal_ok(self.final[0] or b''):
+            probs.append(('after a successful sync the content copies are not byte-identical valid files', dict(copies=self.nc)))
+        return probs
 
     def problems_of_twin(self):
         probs = []
@@ -492,6 +501,78 @@ class KillScenario:
             why = L.judge(rc, out)
             if why is not None or self.read_copies(wd) != before:
                 probs.append(('first content copies damaged, last intact: `sync` %s' % (why or 'rewrote a content copy although it refused to run'), dict(copies=self.nc, rc=rc)))
+        finally:
+            shutil.rmtree(wd, ignore_errors=True)
+        return probs
+
+    def clone_from(self, src, name):
+        wd = os.path.join(self.root, name)
+        shutil.copytree(os.path.join(self.root, src), wd, symlinks=True)
+        return wd
+
+    def stale_copy_cases(self):
+        """a NON-first content copy is stale (older generation put back), missing, truncated or extended while the first copy is the
+        newest, and the command has nothing else to write (array already in sync; meaningful on format-3 arrays, where a sync with
+        nothing to do does not rewrite the content by itself).  After the successful command every copy must be byte-identical to
+        the first one and CRC-valid.  Reverse case: the first copy is the stale one (the loader takes the first that exists)."""
+        probs = []
+        if self.nc < 2:
+            return probs
+        old, new = self.versions[0], self.final[0]
+        obs = self.stats.setdefault('stale_copy', dict(cases=0, rewritten=0, same_size_damage_survives=0))
+        cmds = (['sync'], ['scrub', '-p', 'bad'])     # (`touch` would modify the shared data files)
+
+        def put(wd, j, kind):
+            p = os.path.join(wd, self.contents[j])
+            if kind == 'missing':
+                os.unlink(p)
+                return
+            data = {'stale': old, 'truncated': new[:-7], 'extended': new + b'\x00tail', 'bitflip_same_size': bytes(new[:40]) + bytes([new[40] ^ 8]) + bytes(new[41:])}[kind]
+            with open(p, 'wb') as f:
+                f.write(data)
+        n = 0
+        for j in range(1, self.nc):
+            for kind in ('stale', 'missing', 'truncated', 'extended', 'bitflip_same_size'):
+                for cmd in cmds:
+                    if kind == 'bitflip_same_size' and cmd != ['sync']:
+                        continue
+                    n += 1
+                    wd = self.clone_from('twin', 'stale_%d' % n)
+                    try:
+                        put(wd, j, kind)
+                        rc, out = L.run_tool(self.tool, ['-c', 'conf'] + cmd, wd, self.env(T1))
+                        cp = self.read_copies(wd)
+                        rep = dict(copies=self.nc, damaged_copy=self.contents[j], how=kind, cmd=cmd, rc=rc, sizes=[None if c is None else len(c) for c in cp],
+                                   valid=[L.seal_ok(c or b'') for c in cp], shape=self.spec['name'], output=out[-500:].decode(errors='replace'))
+                        obs['cases'] += 1
+                        same = all(c == cp[0] for c in cp) and L.seal_ok(cp[0] or b'')
+                        if kind == 'bitflip_same_size':
+                            # the unchanged tree compares sizes only: recorded, reported to the evidence, not judged here
+                            if not same:
+                                obs['same_size_damage_survives'] += 1
+                            continue
+                        if rc != 0:
+                            probs.append(('content copy %s %s, first copy intact: `%s` fails (rc=%r)' % (self.contents[j], kind, ' '.join(cmd), rc), rep))
+                        elif not same:
+                            probs.append(('content copy %s was %s while the first copy is the newest; after a successful `%s` with nothing else to write the '
+                                          'copies are not byte-identical valid files (sizes %r, valid %r)' % (self.contents[j], kind, ' '.join(cmd), rep['sizes'], rep['valid']), rep))
+                        else:
+                            obs['rewritten'] += 1
+                    finally:
+                        shutil.rmtree(wd, ignore_errors=True)
+        # reverse: the first copy is the old generation (valid), the later ones are the newest
+        wd = self.clone_from('twin', 'stale_first')
+        try:
+            with open(os.path.join(wd, self.contents[0]), 'wb') as f:
+                f.write(old)
+            rc, out = L.run_tool(self.tool, ['-c', 'conf', 'sync'], wd, self.env(T1))
+            cp = self.read_copies(wd)
+            rep = dict(copies=self.nc, how='first copy stale', rc=rc, sizes=[None if c is None else len(c) for c in cp], output=out[-400:].decode(errors='replace'))
+            rc4, out4 = L.run_tool(self.tool, ['-c', 'conf', 'list'], wd, self.env(T1))
+            if rc != 0 or any(c != cp[0] for c in cp) or not L.seal_ok(cp[0] or b'') or b'added_file' not in out4:
+                probs.append(('first content copy stale (old generation), later copies newest: after `sync` (rc=%r) the copies are not identical valid files '
+                              'listing the current data' % rc, rep))
+            obs['cases'] += 1
         finally:
             shutil.rmtree(wd, ignore_errors=True)
         return probs
